@@ -32,5 +32,5 @@ contract("xdoctest.checker:_ellipsis_match",
                  ("spec", "S.ellipsis_match(got, want) == S.placed(got, ws0, k, hi, startpos, endpos)"),
              ])},
          hints=["lemma placed_mono"],
-         props=["C06"],
+         props=["C06"], gen="ellipsis_pairs",
          sentinel=("iff-off-by-one", "result == S.ellipsis_match(got + 'x', want)"))
